@@ -88,7 +88,24 @@ PoolPart7 ==
     \cup {Path(ab, <<DosN, ChS(<<NumL(i), pp>>)>>) : ab \in BOOLEAN, i \in 1 .. 2, pp \in {R1("child", NTAny), R1("following-sibling", NTAny), Call("not", <<R1("child", NTAny)>>)}}
     \cup {Path(ab, <<DosN, ChS(<<pp, NumL(i)>>)>>) : ab \in BOOLEAN, i \in 1 .. 2, pp \in {R1("child", NTAny), Call("not", <<R1("child", NTAny)>>)}}
     \cup {Filter(Union(R1("child", NTAny), R1("descendant", NTName("a"))), <<pp>>, <<>>) : pp \in {NumL(1), NumL(2), R1("child", NTAny), Call("not", <<R1("child", NTAny)>>)}}
-AllPools == PoolSets \o <<PoolPart5, PoolPart6, PoolPart7>>
+\* part 8: function-valued predicates of C02: count() compared with a number, contains()/starts-with() of a path or of '.',
+\* local-name() = 'a', true()/false(), and not()/and/or over them
+SelfN == Path(FALSE, <<Step("self", NTNode, <<>>)>>)
+FnPaths == {R1(ax, NTAny) : ax \in {"child", "descendant", "following-sibling", "ancestor", "attribute"}} \cup {R1("child", NTName("a"))}
+FnPreds ==
+    {Bin(op, Call("count", <<pp>>), NumL(k)) : op \in {"=", ">", "<"}, k \in 0 .. 2, pp \in FnPaths}
+    \cup {Call(f, <<pp, Lit("1")>>) : f \in {"contains", "starts-with"}, pp \in FnPaths \cup {SelfN}}
+    \cup {Bin(op, pp, NumL(k)) : op \in {"=", "<", ">=", "!="}, k \in 1 .. 2, pp \in {R1("child", NTAny), R1("descendant", NTAny), SelfN}}
+    \cup {Bin(op, NumL(1), pp) : op \in {"<", ">="}, pp \in {R1("child", NTAny), SelfN}}
+    \cup {Call("not", <<Call("contains", <<pp, Lit("1")>>)>>) : pp \in FnPaths \cup {SelfN}}
+    \cup {Bin("=", Call("local-name", <<>>), Lit("a")), Bin("!=", Call("local-name", <<>>), Lit("a")), Call("true", <<>>), Call("false", <<>>),
+          Bin("and", Bin("=", Call("local-name", <<>>), Lit("a")), Bin(">", Call("count", <<R1("child", NTAny)>>), NumL(0))),
+          Bin("or", Call("contains", <<SelfN, Lit("1")>>), R1("child", NTName("a"))),
+          Bin("=", Call("count", <<R1("child", NTAny)>>), Call("count", <<R1("child", NTName("a"))>>))}
+PoolPart8 == UNION {HostsOf(<<p>>) : p \in FnPreds}
+             \cup UNION {HostsOf(<<p, q>>) : p \in {Bin(">", Call("count", <<R1("child", NTAny)>>), NumL(0)), Call("contains", <<SelfN, Lit("1")>>)},
+                                             q \in {R1("child", NTName("a")), Bin("=", Call("local-name", <<>>), Lit("a"))}}
+AllPools == PoolSets \o <<PoolPart5, PoolPart6, PoolPart7, PoolPart8>>
 
 NewNodes(d) ==
     UNION { {Node("elem", n, "", "", p, "") : n \in ElemNames} \cup {Node("text", "", "", "", p, v) : v \in TextVals} : p \in Ids(d) }
@@ -122,7 +139,19 @@ ClaimedSteps(steps) ==
     \A i \in 1 .. Len(steps) :
        \A k \in 1 .. Len(steps[i].preds) : Positional(steps[i].preds[k]) /\ ~(steps[i].preds[k].t = "call" /\ steps[i].preds[k].f = "not" /\ ~UsesPos(steps[i].preds[k]))
                                                => (k = 1 /\ steps[i].ax = "child")
-Claimed(e) == IF e.t = "path" THEN ClaimedSteps(e.steps) ELSE IF e.t = "filter" THEN e.e.t = "path" ELSE TRUE
+\* the recorded finding KF-C02-1 (a function converting a node-set from a REVERSE axis to a string takes the nearest node, not
+\* the first in document order) is reproduced by the model; such expressions are emitted for conformance but not claimed
+RevAxes == {"ancestor", "ancestor-or-self", "preceding", "preceding-sibling"}
+RECURSIVE KF1(_)
+KF1(e) == CASE e.t = "call" -> \/ (e.f \in {"contains", "starts-with"} /\ e.args[1].t = "path" /\ e.args[1].steps # <<>> /\ e.args[1].steps[1].ax \in RevAxes)
+                               \/ \E i \in 1 .. Len(e.args) : KF1(e.args[i])
+         [] e.t = "bin" -> KF1(e.l) \/ KF1(e.r)
+         [] e.t = "union" -> KF1(e.l) \/ KF1(e.r)
+         [] e.t = "path" -> \E i \in 1 .. Len(e.steps) : \E k \in 1 .. Len(e.steps[i].preds) : KF1(e.steps[i].preds[k])
+         [] e.t = "filter" -> KF1(e.e) \/ \E k \in 1 .. Len(e.preds) : KF1(e.preds[k])
+         [] OTHER -> FALSE
+ClaimedShape(e) == IF e.t = "path" THEN ClaimedSteps(e.steps) ELSE IF e.t = "filter" THEN e.e.t = "path" ELSE TRUE
+Claimed(e) == ClaimedShape(e) /\ ~KF1(e)
 
 VM2Refines ==
     (IsCase /\ Claimed(expr)) =>
@@ -133,6 +162,12 @@ VM2Refines ==
 VM2Once ==
     (IsCase /\ expr.t = "union") =>
       LET rs == Runs IN \A i \in 1 .. Len(doc) : \A a, b \in 1 .. Len(rs[i].nodes) : a # b => rs[i].nodes[a] # rs[i].nodes[b]
+
+\* the same without the exclusion: TLC must REFUTE it (the model reproduces the recorded finding KF-C02-1)
+VM2RefinesKF ==
+    (IsCase /\ ClaimedShape(expr)) =>
+      LET g == Env(doc)  rs == Runs IN
+      \A i \in 1 .. Len(doc) : rs[i].done /\ SeqToSet(rs[i].nodes) = EvalSet(expr, g, i)
 
 OpCode(o) == CASE o = "child" -> 1 [] o = "next" -> 2 [] o = "prev" -> 3 [] o = "parent" -> 4 [] o = "root" -> 5
                [] o = "first" -> 6 [] o = "nextattr" -> 7
